@@ -368,11 +368,18 @@ func (mab *memoryAddrBook) ConsumePeerRecord(recordEnvelope *record.Envelope, tt
 	// lookups are cheap.
 	if found {
 		if prevRec := prevSignedAddrs(lastState); len(prevRec) > 0 {
+			// Addresses are stored without their /p2p/<id> suffix: compare them that way.
 			newAddrSet := make(map[string]struct{}, len(rec.Addrs))
 			for _, a := range rec.Addrs {
-				newAddrSet[string(a.Bytes())] = struct{}{}
+				if b, id := peer.SplitAddr(a); b != nil && (id == "" || id == rec.PeerID) {
+					newAddrSet[string(b.Bytes())] = struct{}{}
+				}
 			}
 			for _, a := range prevRec {
+				a, id := peer.SplitAddr(a)
+				if a == nil || (id != "" && id != rec.PeerID) {
+					continue
+				}
 				key := string(a.Bytes())
 				if _, still := newAddrSet[key]; still {
 					continue
